@@ -126,15 +126,74 @@ impl Scenario for ConcSc {
                 }
                 picks.push(mine);
             }
-            let build = || -> Vec<Vec<Call>> { picks.iter().map(|m| m.iter().map(|i| Call { lib, g: trace[*i].g, op: trace[*i].op, args: trace[*i].args.clone(), clock: trace[*i].clock, route: trace[*i].route }).collect()).collect() };
+            // FRESH INPUTS (a third of the sessions): the message argument of every call that has one gets a suffix this process
+            // has never seen, another one in every execution — the callers meet whatever per-input state a tree keeps (a memo
+            // of hashed messages, of prepared keys) COLD and at the same time. What each call returns alone is then computed
+            // afterwards, sequentially, on this thread.
+            let fresh = Xo::new(sel ^ 0xF2E5).chance(1, 3);
+            let msg_arg = |op: Op| -> Option<usize> {
+                match op {
+                    Op::Sign | Op::ShareSign | Op::Verify | Op::PkShareVerify | Op::SigShareVerify | Op::SignCrypt | Op::TimeLock | Op::CoreVerify | Op::MultiVerify => Some(2),
+                    Op::CoreSign => Some(1),
+                    Op::PokCommit | Op::PokTsGenerate => Some(0),
+                    _ => None,
+                }
+            };
+            let build_x = |exec: u64| -> Vec<Vec<Call>> {
+                picks
+                    .iter()
+                    .map(|m| {
+                        m.iter()
+                            .map(|i| {
+                                let mut args = trace[*i].args.clone();
+                                if fresh {
+                                    if let Some(p) = msg_arg(trace[*i].op) {
+                                        let suffix = (plan.seed ^ sel ^ exec.wrapping_mul(0x9E37_79B9)).to_le_bytes();
+                                        if let Some(a) = args.get_mut(p) {
+                                            a.extend_from_slice(&suffix);
+                                        }
+                                        if trace[*i].op == Op::TimeLock {
+                                            // the round identifier too: a ciphertext for a round nobody has sealed to before
+                                            if let Some(a) = args.get_mut(3) {
+                                                a.extend_from_slice(&suffix);
+                                            }
+                                        }
+                                    }
+                                }
+                                Call { lib, g: trace[*i].g, op: trace[*i].op, args, clock: trace[*i].clock, route: trace[*i].route }
+                            })
+                            .collect()
+                    })
+                    .collect()
+            };
+            let exec_ctr = std::cell::Cell::new(0u64);
+            let last_calls: std::cell::RefCell<Vec<Vec<Call>>> = std::cell::RefCell::new(vec![]);
+            let build = || -> Vec<Vec<Call>> {
+                exec_ctr.set(exec_ctr.get() + 1);
+                *last_calls.borrow_mut() = build_x(exec_ctr.get());
+                build_x(exec_ctr.get())
+            };
             let check = |rec: &mut Rec, outs: &[Vec<Out>], how: &str| {
+                let calls = last_calls.borrow();
                 for (t, m) in picks.iter().enumerate() {
                     for (r, got) in outs[t].iter().enumerate() {
                         let e = &trace[m[r % m.len()]];
-                        let same = if is_randomized(e.op) {
-                            got.kind() == e.out.kind()
+                        // the sequential answer: recorded (inputs as traced) or computed now (fresh inputs)
+                        let alone: Out = if fresh && msg_arg(e.op).is_some() {
+                            let c = &calls[t][r % m.len()];
+                            let prev = kernel::seams::clock_ns();
+                            kernel::seams::set_clock_ns(c.clock);
+                            let refs: Vec<&[u8]> = c.args.iter().map(|a| a.as_slice()).collect();
+                            let o = c.lib.call_routed(c.g, c.op, &refs, c.route);
+                            kernel::seams::set_clock_ns(prev);
+                            o
                         } else {
-                            match (got, &e.out) {
+                            e.out.clone()
+                        };
+                        let same = if is_randomized(e.op) {
+                            got.kind() == alone.kind()
+                        } else {
+                            match (got, &alone) {
                                 (Out::Ok(a), Out::Ok(b)) => a == b,
                                 (Out::Rej(_), Out::Rej(_)) => true,
                                 (Out::Panic(_), Out::Panic(_)) => true,
@@ -142,7 +201,7 @@ impl Scenario for ConcSc {
                             }
                         };
                         rec.expect(&plan.property, "concurrent-callers-get-sequential-results", same, || {
-                            format!("{:?} {} g={} | thread {} of {} (call #{}): alone the call returns {}, among concurrent callers {}; the other threads run {:?}", e.op, how, e.g.name(), t, n, r, brief(&e.out), brief(got), picks.iter().enumerate().filter(|(j, _)| *j != t).map(|(_, m)| m.iter().map(|i| trace[*i].op).collect::<Vec<_>>()).collect::<Vec<_>>())
+                            format!("{:?} {}{} g={} | thread {} of {} (call #{}): alone the call returns {}, among concurrent callers {}; the other threads run {:?}", e.op, how, if fresh { " fresh-inputs" } else { "" }, e.g.name(), t, n, r, brief(&alone), brief(got), picks.iter().enumerate().filter(|(j, _)| *j != t).map(|(_, m)| m.iter().map(|i| trace[*i].op).collect::<Vec<_>>()).collect::<Vec<_>>())
                         });
                     }
                 }
